@@ -454,9 +454,15 @@ def check_head_reaches_herd(ctx, iso, key, value, case):
 def multi_override_case(draw):
     """two to four different numeric overrides in one scenario (in a drawn order), on a drawn option dictionary"""
     keys = draw(st.lists(st.sampled_from(OVERRIDES), min_size=2, max_size=4, unique=True))
+    # ... with none to three head-count overrides among them; the whole list is then written in a drawn order (the order of a scenario
+    # file's keys is the caller's choice: a head count may come before or after the carcass weight, a multiplier before or after both)
+    heads = draw(st.lists(st.sampled_from(herd.SPECIES), min_size=0, max_size=3, unique=True))
+    keys = list(draw(st.permutations(keys + [sp + "_head" for sp in heads])))
     vals = {}
     for key in keys:
-        if key == "MINIMUM_PERCENT_FED_BEFORE_NONHUMAN_CONSUMPTION_ALLOWED":
+        if key.endswith("_head"):
+            vals[key] = draw(st.integers(1, 10**8))
+        elif key == "MINIMUM_PERCENT_FED_BEFORE_NONHUMAN_CONSUMPTION_ALLOWED":
             vals[key] = draw(st.sampled_from([0.0, 10.0, 100.0]) | st.floats(0, 100))
         elif key == "RATIO_STOCKS_UNTOUCHED":
             vals[key] = draw(st.sampled_from([0.0, 1.0]) | st.floats(0, 1))
